@@ -357,7 +357,7 @@ class Translator:
     def same_text(self, m, decos, params, body, node, msg):
         got = [s for s in m.body if not is_doc(s)]
         if [ast.unparse(d) for d in m.decorator_list] != decos or ast.unparse(m.args) != params or \
-                [ast.dump(s) for s in got] != [ast.dump(s) for s in ast.parse(body).body]:
+                gen.alpha_dump(got) != gen.alpha_dump(ast.parse(body).body):
             self.bad(node, msg)
 
     # ---------------------------------------------------------------- pins
